@@ -22,7 +22,7 @@ import universe as U
 CONF = {
     "C04": dict(universes=["core", "c09", "c09b", "c09c", "c10c", "c10", "c11b", "c16"], probes=False, extra=False),
     "C09": dict(universes=["c09", "c09b", "core", "c09c", "c09t", "c09d"], probes=False, extra=False),
-    "C10": dict(universes=["c10", "c10b", "core", "c10c", "c10d", "c10e"], probes=False, extra=False),
+    "C10": dict(universes=["c10", "c10b", "core", "c10c", "c10d", "c10e", "c10f"], probes=False, extra=False),
     "C11": dict(universes=["c11", "c11b", "core", "c16", "c09t", "c11c"], probes=False, extra=False),
     "C12": dict(universes=["core", "c12x", "c10", "c11", "c12y"], probes=True, extra=True),
     "C16": dict(universes=["core", "c16", "c11"], probes=True, extra=True),
